@@ -2,8 +2,10 @@
    identity of InlineDefinedFuns at a use site (C17, Model/InlineRw.v).
    Definitions only; the proofs are in Proofs/Rw/InlineSubst.v.
 
-   The mutator has NO guard against variable capture (finding F19): the side
-   condition carries it. *)
+   The mutator had NO guard against variable capture (finding F19); after the
+   fix, smtlib.__instantiate refuses a call for which inline_guard holds.  The
+   side condition inline_side still carries the two conjuncts that the guard
+   establishes; inline_side_guarded (Proofs/Rw/InlineGuard.v) drops them. *)
 From DD Require Import Spec.Semantics Model.LetRw Model.InlineRw Proofs.Rw.LetSide.
 Local Open Scope list_scope.
 
@@ -37,3 +39,9 @@ Definition inline_side (d : defn) (args : list sexp) : bool :=
   && distinctb (map L ps)
   && forallb (fun p => term_pos_only p body && negb (mem_sexp (L p) (bound_syms body))) ps
   && forallb (fun pa => negb (occurs (fst pa) body) || no_capture body (snd pa)) (combine ps args).
+
+(* the guard of smtlib.__instantiate (Model/InlineRw.v, instantiate) for formals of the shape (p S ..):
+   a binder within the body binds a formal again, or binds a leaf of an actual argument *)
+Definition inline_guard (d : defn) (args : list sexp) : bool :=
+  existsb (fun f => mem_sexp f (bound_syms (d_body d))) (map L (formal_names d))
+  || existsb (fun n => is_leaf n && mem_sexp n (bound_syms (d_body d))) (flat_map subterms args).
